@@ -9,10 +9,21 @@ sort -u /repo/go.sum harness/go.sum.extra | grep -v '^$' > harness/go.sum
 mkdir -p evidence replays .work
 cd harness
 go build ./internal/... || exit 1
-for d in c[0-9][0-9]; do
+python3 - <<'P' > ../.work/setup-parts.txt
+import sys
+sys.path.insert(0, '..')
+from checks_config import CHECKS
+seen = set()
+for c in CHECKS.values():
+    for p in (c.get('parts') or [{}]):
+        d = dict(c); d.update(p)
+        k = (d['pkg'], bool(d.get('race')))
+        if k not in seen:
+            seen.add(k)
+            print(d['pkg'], '-race' if d.get('race') else '')
+P
+while read -r d race; do
   [ -d "$d" ] || continue
-  race=""
-  if python3 -c "import sys; sys.path.insert(0,'..'); from checks_config import CHECKS; sys.exit(0 if any(c['pkg']=='$d' and c.get('race') for c in CHECKS.values()) else 1)"; then race="-race"; fi
   go test -c -tags verif -vet=off $race -o /dev/null ./$d || { echo "setup: build of $d failed"; exit 1; }
-done
+done < ../.work/setup-parts.txt
 echo "setup done"
